@@ -314,6 +314,40 @@ def h_idle_service(ctx, kind, choice):
     V.compare_systems(ctx, A, B, "installed but idle service = plain server carrying its base consumption", names={"srv", "st", "net", "up", "system"})
 
 
+def h_service_relink(ctx, kind):
+    """a service job moved to another service of the same class (other inputs) gets the parameters derived from its new
+    service: the live model equals the model in which the job was created on that service"""
+    from efootprint.builders.services.video_streaming import VideoStreaming, VideoStreamingJob
+    from efootprint.builders.services.web_application import WebApplication, WebApplicationJob
+    sym = {f"up.starts[{i}]": dict(lo=0, hi=1000, nice=(1, 40)) for i in range(2)}
+    if kind == "video":
+        sym.update({"svcB.bits_per_pixel": dict(lo=0, lo_strict=True, hi=10, nice=(0.05, 0.5)), "svcB.ram_buffer_per_user": dict(lo=0, hi=10 ** 4, nice=(10, 100)),
+                    "svcB.static_delivery_cpu_cost": dict(lo=0, hi=100, nice=(1, 8))})
+    env = M.Env(ctx, symbolic=sym)
+
+    def model(on):
+        srv, st = make_server(env, "cpu")
+        if kind == "video":
+            mk = lambda nm: VideoStreaming(nm, srv, sv(env, f"{nm}.base_ram_consumption", 2, "GB"), sv(env, f"{nm}.bits_per_pixel", 0.125, "dimensionless"),  # noqa
+                                           sv(env, f"{nm}.static_delivery_cpu_cost", 4, "cpu_core/(GB/s)"), sv(env, f"{nm}.ram_buffer_per_user", 50, "MB"))
+            a, b = mk("svcA"), mk("svcB")
+            job = VideoStreamingJob("sjob", a if on == "A" else b, SourceObject(RESOLUTIONS[2]), sv(env, "sjob.video_duration", 1800, "s"),
+                                    sv(env, "sjob.refresh_rate", 30, "1/s"), sv(env, "sjob.data_stored", 0, "MB"))
+        else:
+            a, b = WebApplication("svcA", srv, SourceObject("php-symfony")), WebApplication("svcB", srv, SourceObject("go-pgx"))
+            job = WebApplicationJob("sjob", a if on == "A" else b, sv(env, "sjob.data_transferred", 2.25, "MB"), sv(env, "sjob.data_stored", 100, "kB"),
+                                    SourceObject("default"))
+        o = dict(srv=srv, st=st, svcA=a, svcB=b, sjob=job, **usage_side(env, [job]))
+        o["system"] = System("system", [o["up"]])
+        return o
+    live = model("A")
+    V.observe_system(ctx, live, "A.")
+    live["sjob"].service = live["svcB"]
+    fresh = model("B")
+    V.compare_systems(ctx, live, fresh, f"{kind}: job moved to another service = job created on that service",
+                      names={"srv", "st", "net", "up", "system", "sjob"})
+
+
 def h_cloud(ctx, provider, instance_type, edit_instance=None):
     from efootprint.builders.hardware.boavizta_cloud_server import BoaviztaCloudServer
     env = M.Env(ctx, symbolic={f"up.starts[{i}]": dict(lo=0, hi=1000, nice=(1, 40)) for i in range(2)} |
@@ -377,7 +411,7 @@ def h_cloud(ctx, provider, instance_type, edit_instance=None):
                           names={"srv", "st", "net", "up", "system"}, skip={"srv.api_call_response"})
 
 
-HARNESSES = {"service": h_service, "categorical_edit": h_categorical_edit, "cloud": h_cloud, "idle_service": h_idle_service}
+HARNESSES = {"service": h_service, "categorical_edit": h_categorical_edit, "cloud": h_cloud, "idle_service": h_idle_service, "service_relink": h_service_relink}
 
 
 def plan(tier, seed):
@@ -424,6 +458,8 @@ def plan(tier, seed):
         p.append(("cloud", dict(provider=prov, instance_type=it)))
     p.append(("cloud", dict(provider="scaleway", instance_type="ent1-s", edit_instance="ent1-m")))
     p.append(("cloud", dict(provider="scaleway", instance_type="dev1-s", edit_instance="ent1-l")))
+    p.append(("service_relink", dict(kind="video")))
+    p.append(("service_relink", dict(kind="web")))
     p.append(("idle_service", dict(kind="video", choice=None)))
     p.append(("idle_service", dict(kind="genai", choice=["mistralai", "open-mistral-7b"])))
     return p
